@@ -51,7 +51,7 @@ class Tree:
         if self.kind == "native":
             r = os.path.relpath(p, self.root)
         else:
-            r = posixpath.relpath(p, self.root)
+            r = posixpath.relpath(posixpath.join("/", p), self.root)       # (a PyFilesystem path may be given without the leading slash)
         return "" if r == "." else r
 
     def _make(self, base, layout):
